@@ -76,7 +76,11 @@ func cmdDump(args []string) {
 	rr := generate(p, "", false)
 	for _, o := range rr.Obls {
 		if strings.Contains(o.Name, *name) {
-			fmt.Printf("; ---- %s\n%s\n", o.Name, o.Script.Render(o.N, o.Hyp, o.Goal, o.Inputs))
+			gv := o.Inputs
+			if o.Ex != nil && len(o.Ex.replayInputs) > 0 {
+				gv = o.Ex.replayTerms(o)
+			}
+			fmt.Printf("; ---- %s\n%s\n", o.Name, o.Script.Render(o.N, o.Hyp, o.Goal, gv))
 		}
 	}
 }
@@ -150,6 +154,15 @@ func cmdCheck(args []string) {
 			q := o.Script.Render(o.N, o.Hyp, o.Goal, gv)
 			o.QueryFile = writeQuery(qdir, o.Name, q)
 			o.Res = solve(o.QueryFile, timeout, *seed, thorough)
+			if o.Res.Status == "sat" && !o.ExpectSat {
+				// complete the model over the whole path (preconditions included)
+				fq := writeQuery(qdir, o.Name+"_full", o.Script.RenderFull(o.N, o.Hyp, o.Goal, gv))
+				if fr := solve(fq, timeout, *seed, false); fr.Status == "sat" {
+					fr.TimeS += o.Res.TimeS
+					o.Res = fr
+					o.QueryFile = fq
+				}
+			}
 			o.Res.Output = strings.TrimSpace(o.Res.Output)
 		}(o)
 	}
